@@ -140,6 +140,33 @@ impl ModuleCollector {
     }
 }
 
+/// Absolute form of `path` with `.` and `..` components removed lexically (symlinks are not resolved).
+///
+/// Import resolution walks up the directory tree with [`Path::parent`], which is purely lexical: on a path that was
+/// given relative to the current directory it stops at the empty path instead of continuing into the parent of the
+/// current directory. Module collectors therefore resolve imports against the absolute directory of the entry file.
+pub fn absolute_path(path: &Path) -> PathBuf {
+    let absolute = std::path::absolute(path).unwrap_or_else(|_| path.to_path_buf());
+    let mut normalized = PathBuf::new();
+    for component in absolute.components() {
+        match component {
+            std::path::Component::CurDir => {}
+            std::path::Component::ParentDir => {
+                normalized.pop();
+            }
+            other => normalized.push(other.as_os_str()),
+        }
+    }
+    normalized
+}
+
+/// Spell `path` relative to `cwd` when it lies below it (used to report dependency files the way the entry file was
+/// given on the command line); otherwise keep it as it is.
+pub fn display_path(path: &Path, cwd: Option<&Path>) -> String {
+    let shown = cwd.and_then(|cwd| path.strip_prefix(cwd).ok()).unwrap_or(path);
+    shown.to_string_lossy().to_string()
+}
+
 /// Resolve an `import` / `from ... import ...` into an on-disk Incan module file path.
 ///
 /// This is used by both the CLI and the LSP to typecheck multi-file projects.
